@@ -48,7 +48,7 @@ def run(ctx):
     ctx.ob("C32.D2-messages-recorded", cname(f, None, "no break / continue in the loop"), ok, "" if ok else "loop can skip handling", where=where(f, lp))
     # D3
     hs = [s for s in A.walk_stmts(lp.body) if isinstance(s, ast.If) and isinstance(s.test, ast.NamedExpr) and s.test.target.id == "handler"]
-    ok = bool(hs) and A.norm(hs[0].test.value) == "next((h for h in self.message_handlers if h.predicate(msg)), None)" and [A.norm(x) for x in hs[0].body] == ["send_value = handler.runnable(msg)"]
+    ok = bool(hs) and A.norm(hs[0].test.value) == "next((h for h in self.message_handlers if h.predicate(msg)), None)" and [A.norm(x) for x in A.walk_stmts(hs[0].body) if isinstance(x, (ast.Assign, ast.AugAssign, ast.AnnAssign))] == ["send_value = handler.runnable(msg)"]
     ctx.ob("C32.D3-first-matching-handler", cname(f, None, "first handler whose predicate matches; its result becomes send_value"), ok,
            "" if ok else "handler selection changed", nontrivial=True, where=where(f, lp))
     ah = repo.func(SM, "RunEngineSimulator.add_handler")
@@ -103,4 +103,6 @@ MUTANTS = [
     ("limit violations swallowed", [(F, "                await maybe_await(obj.check_value(msg.args[0]))", "                try:\n                    await maybe_await(obj.check_value(msg.args[0]))\n                except Exception:\n                    ignore.append(obj)")], "C32.D5"),
     ("check only the first set per device", [(F, "            if isinstance(obj, Checkable):\n                await maybe_await(obj.check_value(msg.args[0]))", "            if isinstance(obj, Checkable):\n                await maybe_await(obj.check_value(msg.args[0]))\n                ignore.append(obj)")], "C32.D5"),
 ]
-BENIGN = []
+BENIGN = [
+    ("send logging moved into the handler branch", [("simulators.py", "                    send_value = handler.runnable(msg)\n\n                if send_value:\n                    LOGGER.debug(f\">send {send_value}\")", "                    send_value = handler.runnable(msg)\n                    LOGGER.debug(\">send %s\", send_value)")]),
+]
